@@ -14,7 +14,7 @@ KEYS = ['A', 'B', 'X', 'Y', 'var1', 'var2', 'N', 'T', 'F', 'Z', 'n-1', '_u', 'a'
 CM_KEYS = ['a/b.c', 'p+q', 'cmakedefine', 'VAR']
 UNDEF = ['nope', 'U2', 'undefined_1', 'q']
 STRS = ['', 'foo', 'bar baz', '"quoted"', 'True', '0', 'x', 'é€', 'a\\b', '\\', '\\\\', '@', 'a@', '@b', '$', '${', '}',
-        ' lead', 'trail ', '#mesondefine A', 'X', 'tab\there']
+        ' lead', 'trail ', '#mesondefine A', 'X', 'tab\there', 'smile\U0001F600', 'del\x7f', 'bs\x08"q"', 'nl\nx']
 INTS = [0, 1, -5, 42, 12345678901234567890, 7]
 DESCS = ['', '', '', 'a description', 'two\nlines', 'star */ slash', 'cr\r\nlf', 'é', ' ', 'x\x0by\x85z']
 
@@ -32,6 +32,8 @@ def gen_data(rng, cmake=False, cyclic=False, header=False):
     ks = rng.sample(pool, min(n, len(pool)))
     if rng.random() < 0.03:
         ks.append('')
+    if header and rng.random() < 0.08:
+        ks.append(rng.choice(['has space', 'at@key', 'é', 'q"uote', 'back\\slash', 'smile\U0001F600', 'nl\nkey']))
     d = []
     for i, k in enumerate(ks):
         r = rng.random()
@@ -89,7 +91,8 @@ def gen_line_meson(rng, d):
         elif r < 0.38:
             parts.append('\\@' + k + '\\@')
         elif r < 0.43:
-            parts.append(rng.choice(['\\@' + k + '@', '@' + k + '\\@', '@' + k, k + '@', '\\\\@' + k + '\\@', '\\\\\\@' + k + '\\@']))
+            parts.append(rng.choice(['\\@' + k + '@', '@' + k + '\\@', '@' + k, k + '@', '\\\\@' + k + '\\@', '\\\\\\@' + k + '\\@',
+                                     '\\' * 5 + '@' + k + '\\@', '\\' * 4 + '@' + k + '@', '\\' * 7 + '@' + k + '\\@', 'dev@example.org @' + k + '@']))
         elif r < 0.58:
             parts.append('\\' * rng.choice([1, 1, 2, 2, 3, 4, 5, 6]))
         elif r < 0.66:
@@ -119,7 +122,8 @@ def gen_line_cmake(rng, d):
         elif r < 0.64:
             parts.append(rng.choice(['${' + k, '${' + k + ' }', '${', '$', '{', '}', '$' + k, '${' + k + '}}', '$${' + k + '}', '${a b}', '${a\\b}']))
         elif r < 0.72:
-            parts.append(rng.choice(['@', '@@', '@ @', '@' + k, k + '@', '\\@', '@' + k + ' @', '\\@' + k + '@']))
+            parts.append(rng.choice(['@', '@@', '@ @', '@' + k, k + '@', '\\@', '@' + k + ' @', '\\@' + k + '@', 'dev@example.org @' + k + '@',
+                                     'a@b.c ${' + k + '} x@y', 'joe@${' + k + '}, ann@${' + k + '}', '@(' + k + ')@' + k + '@']))
         elif r < 0.78:
             parts.append('\\' * rng.choice([1, 2, 3]))
         elif r < 0.84:
@@ -378,6 +382,9 @@ def gen_oracle_template(rng, fmt, cyclic=False):
             lead, mid, trail = rng.choice(LEAD), rng.choice(MID[:-1]), rng.choice(TRAIL)
             if fmt == 'meson':
                 lines.append(['M', lead, mid, k, trail, eol])
+            elif rng.random() < 0.4:
+                toks = [[rng.choice([' ', '  ', '\t']), rng.choice([names(rng, d, True), 'word', '42', '"q"', 'x=y', 'B'])] for _ in range(rng.randint(1, 4))]
+                lines.append(['CT', lead, rng.choice(['', '', ' ', '\t']), mid, k, toks, trail, eol])
             else:
                 lines.append(['C', lead, rng.choice(['', '', ' ', '\t']), rng.choice(['cmakedefine', 'cmakedefine01']), mid, k, trail, eol])
     o = {'o': 'template', 'fmt': fmt, 'data': enc_data(d), 'lines': lines}
@@ -390,6 +397,8 @@ def gen_oracle_header(rng):
     d = [(k, v, desc) for k, v, desc in gen_data(rng, cmake=False, header=True)
          if k and not (isinstance(v, str) and ('\n' in v or '\r' in v))]
     d = [(k, v, desc if not any(ch in desc for ch in '\n\r\x0b\x0c\x1c\x1d\x1e\x85') else 'plain desc') for k, v, desc in d]
+    if rng.random() < 0.3:
+        return {'o': 'header', 'fmt': 'json', 'macro': rng.choice(['', 'CONFIG_H']), 'data': enc_data(gen_data(rng, cmake=True, header=True))}
     return {'o': 'header', 'fmt': rng.choice(['c', 'c', 'nasm']), 'macro': rng.choice(['', '', 'CONFIG_H', 'A']), 'data': enc_data(d)}
 
 
@@ -442,6 +451,10 @@ def cli_sample(ctx, jobs, built):
     scratch = ctx.mkscratch()
     groups = [jobs[i:i + 12] for i in range(0, len(jobs), 12)]
     cases, where = [], []
+    encs = {}
+    import collections
+    cli_cov = collections.Counter()
+    ctx.extra['cli_kwargs_coverage'] = cli_cov
 
     def setup(gi):
         g = groups[gi]
@@ -452,16 +465,32 @@ def cli_sample(ctx, jobs, built):
         if any(k == 'pkg' for k, _, _, _ in g):
             mb.append("cm = import('cmake')")
         for j, (kind, fmt, d, payload) in enumerate(g):
-            mb.append('d%d = configuration_data()' % j)
-            for k, v, desc in d:
-                val = meson_str(v) if isinstance(v, str) else ('true' if v is True else 'false' if v is False else str(v))
-                extra = (', description : ' + meson_str(desc)) if desc else ''
-                mb.append('d%d.set(%s, %s%s)' % (j, meson_str(k), val, extra))
+            mval = lambda v: meson_str(v) if isinstance(v, str) else ('true' if v is True else 'false' if v is False else str(v))
+            as_dict = kind != 'pkg' and (gi + j) % 3 == 1 and not any(desc for _, _, desc in d)
+            if as_dict:
+                # configure_file(configuration : {dict}) - the other spelling of the data
+                mb.append('d%d = {%s}' % (j, ', '.join('%s : %s' % (meson_str(k), mval(v)) for k, v, _ in d)))
+            else:
+                mb.append('d%d = configuration_data()' % j)
+                for k, v, desc in d:
+                    extra = (', description : ' + meson_str(desc)) if desc else ''
+                    mb.append('d%d.set(%s, %s%s)' % (j, meson_str(k), mval(v), extra))
             if kind == 'conf':
-                with open(os.path.join(src, 'in%d.txt' % j), 'w', encoding='utf-8', newline='') as f:
+                # every third template is stored in latin-1 and configured with encoding : 'latin-1' (when it can be)
+                enc = 'utf-8'
+                if (gi + j) % 3 == 2:
+                    try:
+                        (payload + ''.join(v for _, v, _ in d if isinstance(v, str))).encode('latin-1')
+                        enc = 'latin-1'
+                    except UnicodeError:
+                        pass
+                with open(os.path.join(src, 'in%d.txt' % j), 'w', encoding=enc, newline='') as f:
                     f.write(payload)
-                mb.append("configure_file(input : 'in%d.txt', output : 'out%d.txt', configuration : d%d, format : %s)"
-                          % (j, j, j, meson_str(fmt)))
+                encs[(gi, j)] = enc
+                mb.append("configure_file(input : 'in%d.txt', output : 'out%d.txt', configuration : d%d, format : %s%s)"
+                          % (j, j, j, meson_str(fmt), ", encoding : 'latin-1'" if enc == 'latin-1' else ''))
+                cli_cov['dict_configuration' if as_dict else 'configuration_data'] += 1
+                cli_cov['encoding_' + enc] += 1
             elif kind == 'pkg':
                 # another caller of the modelled code: the cmake module's configure_package_config_file()
                 # (modules/cmake.py: do_replacement(..., 'cmake@', ...) line by line)
@@ -470,6 +499,8 @@ def cli_sample(ctx, jobs, built):
                 mb.append("cm.configure_package_config_file(name : 'out%d', input : 'in%d.cmake.in', configuration : d%d, install_dir : 'lib')"
                           % (j, j, j))
             else:
+                cli_cov['output_format_' + fmt] += 1
+                cli_cov['macro_name' if payload else 'no_macro_name'] += 1
                 mac = (', macro_name : ' + meson_str(payload)) if payload else ''
                 mb.append("configure_file(output : 'out%d.txt', configuration : d%d, output_format : %s%s)" % (j, j, meson_str(fmt), mac))
         with open(os.path.join(src, 'meson.build'), 'w', encoding='utf-8') as f:
@@ -479,7 +510,7 @@ def cli_sample(ctx, jobs, built):
         for j in range(len(g)):
             p = os.path.join(bld, ('out%dConfig.cmake' if g[j][0] == 'pkg' else 'out%d.txt') % j)
             try:
-                with open(p, encoding='utf-8', newline='') as f:
+                with open(p, encoding=encs.get((gi, j), 'utf-8'), newline='') as f:
                     outs.append(f.read())
             except OSError:
                 outs.append(None)
@@ -588,7 +619,7 @@ def run(ctx):
         cases.append(('conf', ['cmake', e1, t]))
     DH = [('zeta', 'z', ''), ('Alpha', True, 'first'), ('beta', False, 'two\nlines'), ('N', 7, 'star */'), ('a', '', ''), ('B', '"s"', 'cr\r\nx'),
           ('_', -3, ''), ('aa', 'x y', ''), ('Z', 0, '\x0bv')]
-    for fmt in ('c', 'nasm'):
+    for fmt in ('c', 'nasm', 'json'):
         for mac in ('', 'GUARD_H'):
             cases.append(('header', [fmt, mac, enc_data(DH)]))
             cases.append(('header', [fmt, mac, '']))
@@ -619,7 +650,7 @@ def run(ctx):
         dist['single_lines'] += 1
     for i in range(6000 if thorough else 700):
         d = gen_data(rng, header=True)
-        cases.append(('header', [rng.choice(['c', 'c', 'nasm']), rng.choice(['', '', 'CONFIG_H', 'x y']), enc_data(d)]))
+        cases.append(('header', [rng.choice(['c', 'c', 'nasm', 'json']), rng.choice(['', '', 'CONFIG_H', 'x y']), enc_data(d)]))
         dist['headers'] += 1
     # ---- small exhaustive enumerations
     dm = enc_data([('a', 'v@a@', ''), ('b', '', ''), ('ab', 7, ''), ('aa', True, '')])
@@ -664,7 +695,7 @@ def run(ctx):
 
     # ---- CLI sample: configure_file() in a real project (glue: readlines, encoding, kwargs)
     ok_conf = [(c, r) for c, r in zip(cases, impl) if c[0] == 'conf' and r.startswith('OK') and '\x00' not in c[1][2]
-               and all(ch not in c[1][1] + c[1][2] for ch in '\x0b\x0c\x1c\x85')]
+               and all(ch not in c[1][1] + c[1][2] for ch in '\x0b\x0c\x1c\x85\x08')]
     jobs = []
 
     def dec_data(w):
@@ -828,6 +859,53 @@ def run(ctx):
         ctx.violation('C14:cli:' + json.dumps(case), 'configure_file() in a real project (%s, format %s) %s; in process the same template and data give %r'
                       % (kind, case[1][0], ('fails (meson setup rc=%d)' % rc) if rc else ('writes %r' % (got,)), want), {'cli': case, 'kind': kind})
     ctx.extra['input_distribution'] = dist
+    shapes = {
+        'meson: odd backslash run >= 3 before \\@NAME\\@': (lambda f, t: f == 'meson' and re.search(r'(?<!\\)(\\\\)+\\@[-\w]+\\@', t)),
+        'meson: backslash pairs before @NAME@': (lambda f, t: f == 'meson' and re.search(r'(?<!\\)(\\\\)+@[-\w]+@', t)),
+        'meson: @A@@B@ adjacent': (lambda f, t: f == 'meson' and re.search(r'@[-\w]+@@[-\w]+@', t)),
+        'meson: #mesondefine with CRLF / CR': (lambda f, t: f == 'meson' and re.search(r'#mesondefine[^\n]*\r', t)),
+        'meson: #mesondefine indented': (lambda f, t: f == 'meson' and re.search(r'(^|\n)[ \t\x0c\xa0]+#mesondefine', t)),
+        'cmake: stray @ then real @VAR@ on the line': (lambda f, t: f != 'meson' and re.search(r'@[^@\n]*[ ()][^@\n]*@[\w/.+-]+@', t)),
+        'cmake: ${VAR} between two stray @': (lambda f, t: f == 'cmake' and re.search(r'@[^@\n]*\$\{[\w/.+-]*\}[^@\n]*@', t)),
+        'cmake: nested ${..${..}}': (lambda f, t: f == 'cmake' and '${' in t and re.search(r'\$\{[^}]*\$\{', t)),
+        'cmake: unterminated ${': (lambda f, t: f == 'cmake' and re.search(r'\$\{[^}]*$', t)),
+        'cmake: @A@@B@ adjacent': (lambda f, t: f != 'meson' and re.search(r'@[\w/.+-]+@@[\w/.+-]+@', t)),
+        'cmake: #cmakedefine with value tokens': (lambda f, t: f != 'meson' and re.search(r'#[ \t]*cmakedefine[ \t]+\S+[ \t]+\S', t)),
+        'cmake: indented "# cmakedefine"': (lambda f, t: f != 'meson' and re.search(r'(^|\n)[ \t]+#[ \t]+cmakedefine', t)),
+        'cmake: #cmakedefine with CRLF / CR': (lambda f, t: f != 'meson' and re.search(r'cmakedefine[^\n]*\r', t)),
+        'any: CR-only line ending': (lambda f, t: re.search(r'\r(?!\n)', t)),
+        'any: no newline at end of file': (lambda f, t: t and t[-1] not in '\r\n'),
+        'any: non-ASCII text': (lambda f, t: not t.isascii()),
+    }
+    table = dict.fromkeys(shapes, 0)
+    dshapes = {'value refers to its own key': 0, 'empty string value': 0, 'value with placeholder text': 0, 'bool value': 0, 'int value': 0,
+               'key with hostile characters': 0, 'astral / control characters in a value': 0}
+    hshapes = {'header c': 0, 'header nasm': 0, 'header json': 0, 'header with macro_name': 0, 'header description with line break': 0}
+    for fn, args in cases:
+        if fn in ('conf', 'repl'):
+            for name, pred in shapes.items():
+                if pred(args[0], args[2]):
+                    table[name] += 1
+            data = args[1]
+        else:
+            hshapes['header ' + args[0]] += 1
+            hshapes['header with macro_name'] += bool(args[1])
+            data = args[2]
+        for e in (data.split(SEP2) if data else []):
+            k, kind, v, desc = e.split(SEP1)
+            if kind == 's':
+                dshapes['empty string value'] += v == ''
+                dshapes['value with placeholder text'] += ('@' in v or '${' in v)
+                dshapes['value refers to its own key'] += ('@%s@' % k in v or '${%s}' % k in v)
+                dshapes['astral / control characters in a value'] += any(ord(ch) > 0xffff or ord(ch) < 32 or ord(ch) == 127 for ch in v)
+            dshapes['bool value'] += kind == 'b'
+            dshapes['int value'] += kind == 'i'
+            dshapes['key with hostile characters'] += any(ch not in NAMECH for ch in k)
+            if fn == 'header':
+                hshapes['header description with line break'] += any(ch in desc for ch in '\n\r\x0b\x85')
+    table.update(dshapes); table.update(hshapes)
+    ctx.extra['coverage_table'] = table
+    ctx.extra['coverage_gaps'] = sorted(k for k, v in table.items() if not v)
     if thorough and built:
         # independent re-check of the compiled proofs (and of their axiom list) by coqchk
         r = subprocess.run(['timeout', '1500', 'coqchk', '-silent', '-o', '-Q', COQ, 'MV', 'MV.Props.C14'],
@@ -844,9 +922,8 @@ def run(ctx):
                  'harness/check_C14.py generators and harness/impl/c14.py adapter, canonicaliser and oracle',
                  'model covers universal.py:1460-1832 (do_replacement_meson via a hand-written scanner for the regex of get_variable_regex, '
                  'do_replacement_cmake, do_define_*, do_conf_str_*, readlines/writelines of do_conf_file, _dump_c_header c/nasm), as '
-                 'fixed by the C14 fix commits in /repo and by pending/C14-mesondefine-value-rescanned.diff and '
-                 'pending/C14-define-line-eol.diff; callers covered end to end: configure_file() and cmake.configure_package_config_file()',
-                 'not modelled: file encodings other than UTF-8, replace_if_different (C06), FeatureNew notices, output_format json, '
+                 'fixed by the four C14 fix commits in /repo, and output_format json (json.encoder); callers covered end to end: configure_file() and cmake.configure_package_config_file()',
+                 'not modelled: file encodings other than UTF-8, replace_if_different (C06), FeatureNew notices, '
                  'non str/int/bool values'],
         assumptions=['Print Assumptions: all property theorems closed under the global context (no axioms)',
                      'Python str.isspace / regex \\s restricted to ASCII blanks plus the code points listed in Base/Strs.v is_space',
